@@ -773,3 +773,142 @@ Lemma split_input_noop : forall kd n w fs r k,
 Proof.
   intros kd n w fs r k Ht Hin. unfold run_once. rewrite Hin, Ht. cbn. auto.
 Qed.
+
+(* ====================================================================== *)
+(* Idempotence: a run without overwrite on a converted directory            *)
+(* ====================================================================== *)
+Lemma flat_map_nil : forall (A B : Type) (g : A -> list B) l,
+  (forall x, In x l -> g x = []) -> flat_map g l = [].
+Proof.
+  intros A B g. induction l as [|a l IH]; intros H; cbn; [reflexivity|].
+  rewrite H by (left; reflexivity). cbn. apply IH. intros; apply H; right; assumption.
+Qed.
+
+Lemma go_nil : forall crash fs st al,
+  go [] crash fs st al = mkOut fs (Status st) false al false [].
+Proof. intros. unfold go. destruct crash as [c|]; [rewrite firstn_nil|]; reflexivity. Qed.
+
+Lemma rerun_noop24 : forall n w fs r,
+  (1 <= n)%nat -> (forall k, (k < n)%nat -> fs (PDir k) <> Absent) ->
+  r_ow r = false -> (r_target r = TBin \/ r_target r = TCbin) ->
+  input_state NP24 n fs (r_target r) = Present ->
+  run_once NP24 n w fs r = mkOut fs (Status 0) false 1 false [].
+Proof.
+  intros n w fs r Hn Hd How Ht Hin. unfold run_once. rewrite Hin, How.
+  assert (Hal : already24 false fs n = true).
+  { unfold already24. apply existsb_exists. exists 0%nat. split; [apply in_seq; lia|].
+    rewrite (proj2 (present_true fs (PDir 0))); [reflexivity | apply Hd; lia]. }
+  assert (Hpl : forall o c tf, plan24 n w o false c tf fs = []).
+  { intros. unfold plan24. rewrite Hal. unfold prep24. apply flat_map_nil. intros k Hk.
+    apply in_seq in Hk. unfold prep_one.
+    rewrite (proj2 (present_true fs (PDir k))); [reflexivity | apply Hd; lia]. }
+  destruct Ht as [-> | ->]; rewrite Hal, Hpl; apply go_nil.
+Qed.
+
+Lemma rerun_noop21 : forall n w fs r,
+  (fs (PFile Lf21 FBin) <> Absent \/ fs (PFile Lf21 FCbin) <> Absent) ->
+  r_ow r = false -> (r_target r = TBin \/ r_target r = TCbin) ->
+  input_state NP21 n fs (r_target r) = Present ->
+  run_once NP21 n w fs r = mkOut fs (Status 0) false 1 false [].
+Proof.
+  intros n w fs r Hd How Ht Hin. unfold run_once. rewrite Hin, How.
+  assert (Hal : already21 false fs = true).
+  { unfold already21. destruct Hd as [H|H]; apply present_true in H; rewrite H; cbn;
+      [reflexivity | rewrite orb_true_r; reflexivity]. }
+  assert (Hpl : forall o tf, plan21 w o false tf fs = []) by (intros; unfold plan21; rewrite Hal; reflexivity).
+  destruct Ht as [-> | ->]; rewrite Hal, Hpl; apply go_nil.
+Qed.
+
+(* a run that returned a status executed its whole plan without error *)
+Lemma go_status : forall plan crash fs st al z,
+  out_outcome (go plan crash fs st al) = Status z ->
+  exists rs', exec plan (mkR fs false) = (rs', None) /\ out_fs (go plan crash fs st al) = r_fs rs' /\
+              out_checked (go plan crash fs st al) = r_checked rs' /\ z = st.
+Proof.
+  intros plan crash fs st al z H. unfold go in *.
+  set (pl := match crash with Some c => firstn c plan | None => plan end) in *.
+  destruct (exec pl (mkR fs false)) as [rs' e] eqn:E. cbn [out_outcome out_fs out_checked] in *.
+  destruct e; [discriminate|].
+  destruct (length pl <? length plan)%nat eqn:El; [discriminate|]. inversion H; subst z.
+  apply Nat.ltb_ge in El.
+  assert (pl = plan).
+  { subst pl. destruct crash as [c|]; [|reflexivity]. rewrite firstn_length in El.
+    apply firstn_all2. lia. }
+  rewrite <- H0. eauto.
+Qed.
+
+Definition nodir_step (s : step) : bool :=
+  match s with
+  | SMkdir _ | STrunc (PDir _) | SCorrupt (PDir _) | SUnlink (PDir _) _ => false
+  | _ => true
+  end.
+Lemma nodir_step_dir : forall s k, nodir_step s = true -> touches s (PDir k) = false.
+Proof.
+  intros s k H. destruct s; cbn in *; try reflexivity; try discriminate;
+    try (destruct p; [discriminate | reflexivity]).
+Qed.
+Lemma comp_steps_nodir : forall ow o, forallb nodir_step (comp_steps ow o) = true.
+Proof. destruct ow; reflexivity. Qed.
+Lemma rest24_nodir : forall n w o ow corrupt tf,
+  forallb nodir_step (body24 n w o ow corrupt ++ del24 o tf) = true.
+Proof.
+  intros. unfold body24, del24. repeat rewrite forallb_app. repeat (apply andb_true_iff; split).
+  - unfold wins24. destruct w; [reflexivity|]. rewrite forallb_app. apply andb_true_iff. split; [|reflexivity].
+    apply forallb_flat_map. reflexivity.
+  - unfold metas24. rewrite forallb_app. apply andb_true_iff. split; apply forallb_flat_map; reflexivity.
+  - destruct (o_post o); [|reflexivity]. unfold verify24. destruct corrupt; reflexivity.
+  - destruct (o_comp o); [|reflexivity]. unfold comp24. apply forallb_flat_map. intros k _.
+    rewrite forallb_app, !comp_steps_nodir. reflexivity.
+  - destruct (o_del o); reflexivity.
+Qed.
+
+(* _prepare_files: folders that exist keep existing, created folders exist *)
+Lemma prep_list_dirs : forall ow fs ks rs rs',
+  exec (flat_map (prep_one ow fs) ks) rs = (rs', None) ->
+  (forall k, r_fs rs (PDir k) = Complete -> r_fs rs' (PDir k) = Complete) /\
+  (forall k, In k ks -> present fs (PDir k) && negb ow = false -> r_fs rs' (PDir k) = Complete).
+Proof.
+  intros ow fs. induction ks as [|k0 ks IH]; intros rs rs' H.
+  - cbn in H. inversion H; subst. split; [auto | intros k []].
+  - cbn [flat_map] in H. apply exec_app_ok in H as [rs1 [H1 H2]].
+    destruct (IH _ _ H2) as [Hm Hk].
+    assert (Hm1 : forall k, r_fs rs (PDir k) = Complete -> r_fs rs1 (PDir k) = Complete).
+    { intros k Hc. unfold prep_one in H1. destruct (negb (present fs (PDir k0)) || ow).
+      - cbn in H1. destruct (present _ _); [|discriminate]. cbn in H1.
+        destruct (present _ _); [|discriminate]. inversion H1; subst; cbn. upd_simp.
+        unfold upd. destruct (path_eqb _ _); auto.
+      - cbn in H1. inversion H1; subst. exact Hc. }
+    split; [intros k Hc; apply Hm, Hm1, Hc|].
+    intros k [->|Hin] Hcond; [|apply Hk; assumption].
+    apply Hm. unfold prep_one in H1.
+    assert (E : negb (present fs (PDir k)) || ow = true).
+    { destruct (present fs (PDir k)), ow; cbn in *; congruence. }
+    rewrite E in H1. cbn in H1. destruct (present _ _); [|discriminate]. cbn in H1.
+    destruct (present _ _); [|discriminate]. inversion H1; subst; cbn. upd_simp. reflexivity.
+Qed.
+
+Lemma complete24_dirs : forall n w fs r,
+  (r_target r = TBin \/ r_target r = TCbin) ->
+  out_outcome (run_once NP24 n w fs r) = Status 1 ->
+  forall k, (k < n)%nat -> out_fs (run_once NP24 n w fs r) (PDir k) = Complete.
+Proof.
+  intros n w fs r Ht H k Hk. unfold run_once in *.
+  destruct (input_state NP24 n fs (r_target r)); try discriminate.
+  assert (G : forall tf,
+    out_outcome (go (plan24 n w (r_opts r) (r_ow r) (r_corrupt r) tf fs) (r_crash r) fs
+       (if already24 (r_ow r) fs n then 0%Z else 1%Z) (if already24 (r_ow r) fs n then 1%Z else 0%Z)) = Status 1 ->
+    out_fs (go (plan24 n w (r_opts r) (r_ow r) (r_corrupt r) tf fs) (r_crash r) fs
+       (if already24 (r_ow r) fs n then 0%Z else 1%Z) (if already24 (r_ow r) fs n then 1%Z else 0%Z)) (PDir k) = Complete).
+  { intros tf Hs. apply go_status in Hs as [rs' [Hx [Hfs [_ Hst]]]]. rewrite Hfs.
+    destruct (already24 (r_ow r) fs n) eqn:Eal; [discriminate|].
+    unfold plan24 in Hx. rewrite Eal in Hx. rewrite <- app_assoc in Hx.
+    apply exec_app_ok in Hx as [rs1 [HP HR]].
+    destruct (prep_list_dirs _ _ _ _ _ HP) as [_ Hd].
+    erewrite exec_frame; [apply Hd; [apply in_seq; lia|] | exact HR |].
+    - unfold already24 in Eal. rewrite <- not_true_iff_false in Eal. rewrite existsb_exists in Eal.
+      destruct (present fs (PDir k) && negb (r_ow r)) eqn:E; [|reflexivity].
+      exfalso. apply Eal. exists k. split; [apply in_seq; lia | exact E].
+    - intros s Hs. apply nodir_step_dir. pose proof (rest24_nodir n w (r_opts r) (r_ow r) (r_corrupt r) tf) as Hf.
+      rewrite forallb_forall in Hf. auto. }
+  destruct Ht as [Ht|Ht]; rewrite Ht in *; apply G; exact H.
+Qed.
